@@ -243,7 +243,8 @@ class SimSocket:
     def getpeername(self):
         if self.closed:
             raise OSError(errno.EBADF, "Bad file descriptor")
-        if self.peeraddr is None:
+        if self.peeraddr is None or self.reset:
+            # (after the peer reset the connection the socket is no longer connected)
             raise OSError(errno.ENOTCONN, "Transport endpoint is not connected")
         return self.peeraddr
 
